@@ -24,6 +24,8 @@ pub enum TimeSpec {
 
 #[derive(Clone, Debug, Serialize, Deserialize)]
 pub enum LimitSpec {
+    /// RuntimeLimit::None as a leaf
+    Never,
     Count(CountSpec),
     Time(TimeSpec),
     And(Box<LimitSpec>, Box<LimitSpec>),
@@ -69,6 +71,7 @@ impl Ctx {
     }
     fn limit(&self, l: &LimitSpec) -> Limit {
         match l {
+            LimitSpec::Never => Limit::Never,
             LimitSpec::Count(c) => Limit::Count(self.count(c)),
             LimitSpec::Time(t) => Limit::Time(self.time(t)),
             LimitSpec::And(a, b) => Limit::And(Box::new(self.limit(a)), Box::new(self.limit(b))),
@@ -187,19 +190,29 @@ fn run_case(case: &Case) -> Result<(bool, Vec<&'static str>), Failure> {
     if calls.is_empty() {
         labels.push("no-limit");
     }
+    fn has_never(l: &LimitSpec) -> bool {
+        match l {
+            LimitSpec::Never => true,
+            LimitSpec::And(a, b) | LimitSpec::Or(a, b) => has_never(a) || has_never(b),
+            _ => false,
+        }
+    }
+    if case.calls.iter().any(|c| matches!(c, CallSpec::Limit(l) if has_never(l))) {
+        labels.push("None-as-a-leaf-of-the-limit-tree");
+    }
     Ok((truncated && (boundary_n || boundary_t || nested), labels))
 }
 
 fn contains_count(l: &Limit, n: usize) -> bool {
     match l {
         Limit::Count(c) => *c == n,
-        Limit::Time(_) => false,
+        Limit::Time(_) | Limit::Never => false,
         Limit::And(a, b) | Limit::Or(a, b) => contains_count(a, n) || contains_count(b, n),
     }
 }
 fn time_boundary(l: &Limit, trace: &[(u32, u128)]) -> bool {
     match l {
-        Limit::Count(_) => false,
+        Limit::Count(_) | Limit::Never => false,
         Limit::Time(t) => trace.iter().any(|(_, x)| x == t),
         Limit::And(a, b) | Limit::Or(a, b) => time_boundary(a, trace) || time_boundary(b, trace),
     }
@@ -234,7 +247,7 @@ impl Prop for C11 {
             4 => (any::<u16>(), -1i8..=1).prop_map(|(i, o)| TimeSpec::Node(i, o)),
             1 => (0u32..5000).prop_map(TimeSpec::Start),
         ];
-        let leaf = prop_oneof![count.clone().prop_map(LimitSpec::Count), time.clone().prop_map(LimitSpec::Time)];
+        let leaf = prop_oneof![4 => count.clone().prop_map(LimitSpec::Count), 4 => time.clone().prop_map(LimitSpec::Time), 1 => Just(LimitSpec::Never)];
         let tree = leaf.prop_recursive(2, 6, 2, |inner| {
             prop_oneof![
                 (inner.clone(), inner.clone()).prop_map(|(a, b)| LimitSpec::And(Box::new(a), Box::new(b))),
